@@ -918,6 +918,160 @@ def run_local(ops, mode="local"):
 
 
 # ---------------------------------------------------------------------------------------------------------------
+# calls addressed to the peer's Broker object itself (RemoteReference `remote_broker`, clid 0), mixed with application
+# calls on the same connection.  decref / decgift / getReferenceByName are remote methods like any other: what the
+# sender issues -- by callRemote or callRemoteOnly, directly or through the library's own routes (Broker.freeYourReference,
+# TheirReferenceUnslicer.ackGift) -- must be entered on the receiver in the order issued, whether the sender is idle or
+# paused in the middle of a streaming argument.
+BROKER_CALL_OPS = {
+    "m": "m",                   # application callRemote("m")
+    "o": "m",                   # application callRemoteOnly("m")
+    "s": "m",                   # application callRemote("m") whose argument pauses once on a Deferred
+    "S": "m",                   # application callRemoteOnly("m") whose argument pauses twice
+    "d": "decref",              # remote_broker.callRemoteOnly("decref")
+    "c": "decref",              # remote_broker.callRemote("decref")
+    "f": "decref",              # Broker.freeYourReference (what a dying RemoteReference does)
+    "g": "decgift",             # remote_broker.callRemoteOnly("decgift")
+    "a": "decgift",             # TheirReferenceUnslicer.ackGift (what the receiver of a gift does)
+    "n": "getReferenceByName",  # remote_broker.callRemote("getReferenceByName")
+}
+
+
+class _FakeYourTracker:
+    url = None
+    received_count = 0
+
+    def __init__(self, clid):
+        self.clid = clid
+
+
+def run_broker_calls(ops, d=0, chunks=None):
+    """ops: list of BROKER_CALL_OPS keys (each issues call number 0, 1, 2, ... of direction d) and of the steps "R" (fire
+    the Deferred the sender is paused on), "D" (move all bytes written so far, both ways, cut by `chunks`), "T" (one
+    turn of the eventual queue).  Entry into the application method AND into the receiving Broker's own remote_decref /
+    remote_decgift / remote_getReferenceByName goes into ONE log.  -> dict(issued=[(cid, method)], entered=[(cid, method)]
+    before the final quiescence, final=[...] after it, results={cid: answer})"""
+    with E.quiet():
+        E.reset_clock()
+        virtualize_reactors()
+        brokers = [broker.Broker(TubRef("brokerA")), broker.Broker(TubRef("brokerB"))]
+        tr = [QTransport(), QTransport()]
+        for b, t in zip(brokers, tr):
+            b.transport = t
+            b.tub = FakeTub()
+            b.connectionMade()
+        S, R = brokers[d], brokers[1 - d]
+        entered, issued, results = [], [], {}
+
+        class T(Referenceable):
+            def remote_m(self, cid, a=None):
+                entered.append((cid, "m"))
+                return cid
+        target = T()
+        trk = R.getTrackerForMyReference(target.processUniqueID(), target)
+        trk.send()
+        rr = S.getTrackerForYourReference(trk.clid, None).getRef()
+        real_decref, real_decgift = R.remote_decref, R.remote_decgift
+
+        def remote_decref(clid, count):
+            entered.append((clid - 1000, "decref"))
+            return real_decref(clid, count)
+
+        def remote_decgift(giftID, count):
+            entered.append((giftID - 1000, "decgift"))
+            return real_decgift(giftID, count)
+
+        def remote_getReferenceByName(name):
+            name = name.decode() if isinstance(name, bytes) else name
+            cid = int(name.rsplit("-", 1)[1])
+            entered.append((cid, "getReferenceByName"))
+            return cid
+        R.remote_decref, R.remote_decgift, R.remote_getReferenceByName = remote_decref, remote_decgift, remote_getReferenceByName
+        side = Side()
+        rb = S.remote_broker
+
+        def keep(dd, cid):
+            dd.addBoth(lambda r: results.setdefault(cid, short(r)))
+
+        def move():
+            moved = False
+            for i in (0, 1):
+                t, dst = tr[i], brokers[1 - i]
+                j = 0
+                while t.buf:
+                    k = max(1, chunks[j % len(chunks)]) if chunks else len(t.buf)
+                    j += 1
+                    data = bytes(t.buf[:k])
+                    del t.buf[:k]
+                    t.moved += len(data)
+                    dst.dataReceived(data)
+                    moved = True
+            return moved
+
+        def release():
+            if side.stall is not None and not side.stall.called:
+                st, side.stall = side.stall, None
+                st.callback(None)
+                return True
+            return False
+        for o in ops:
+            if o == "R":
+                release()
+                continue
+            if o == "D":
+                move()
+                continue
+            if o == "T":
+                one_turn()
+                continue
+            cid = len(issued)
+            issued.append((cid, BROKER_CALL_OPS[o]))
+            if o == "m":
+                keep(rr.callRemote("m", cid=cid), cid)
+            elif o == "o":
+                rr.callRemoteOnly("m", cid=cid)
+            elif o == "s":
+                keep(rr.callRemote("m", cid=cid, a=StallArg(side, 1)), cid)
+            elif o == "S":
+                rr.callRemoteOnly("m", cid=cid, a=StallArg(side, 2))
+            elif o == "d":
+                rb.callRemoteOnly("decref", clid=1000 + cid, count=1)
+            elif o == "c":
+                keep(rb.callRemote("decref", clid=1000 + cid, count=1), cid)
+            elif o == "f":
+                S.freeYourReference(_FakeYourTracker(1000 + cid), 1)
+            elif o in ("g", "a"):
+                # the receiver really holds that gift, so the real remote_decgift has something to release
+                R.myGiftsByGiftID[1000 + cid] = ("c04", 1000 + cid)
+                R.myGifts[("c04", 1000 + cid)] = (None, 1000 + cid, 1)
+                if o == "g":
+                    rb.callRemoteOnly("decgift", giftID=1000 + cid, count=1)
+                else:
+                    u = referenceable.TheirReferenceUnslicer()
+                    u.broker = S
+                    u.giftID = 1000 + cid
+                    u.ackGift(None)
+            elif o == "n":
+                keep(rb.callRemote("getReferenceByName", name=b"c04-%d" % cid), cid)
+            else:
+                raise ValueError(o)
+        before = list(entered)
+        for i in range(10000):
+            mv = release()
+            mv = move() or mv
+            if turn_pending():
+                one_turn()
+                mv = True
+            if not mv:
+                break
+        else:
+            raise RuntimeError("no quiescence")
+        return dict(issued=issued, entered=before, final=list(entered), results=dict(results),
+                    gifts_left=sorted(g - 1000 for g in R.myGiftsByGiftID if isinstance(g, int) and g >= 1000),
+                    lost=[t.lost for t in tr])
+
+
+# ---------------------------------------------------------------------------------------------------------------
 # real Tubs on the in-memory network: A calls B; some calls carry a reference to an object of a third Tub C, which B
 # has to resolve with the real Tub.getReference (connection to C, negotiation, getReferenceByName) while later calls
 # keep arriving.  Every byte / FIN is moved by the seeded scheduler in pieces of random size.
